@@ -4,26 +4,28 @@ CONSTANTS MaxH
 Sym == Permutations(Member)
 Bound == h <= MaxH
 \* `out`, `pen`, `ret` describe the last step only: not part of the state identity
-View == <<h, params, q, nser, tssAct, ownAct, cool, count, sig, att, tok, exps, pend, mapped, nSucc, nFail, usedBy, pchg>>
+View == <<h, params, q, nser, tssAct, ownAct, cool, count, sig, att, tok, exps, pend, mapped, nSucc, nFail, tr, trSig, usedBy, pchg>>
 
 \* MC next-state relation: the accepted steps of Next; all refused inputs lead to the same successor
 \* (core unchanged, out = "rej"), so one representative refused step is generated instead of one per input
 NextMC ==
     \/ \E a \in Addr, k \in KSet : Len(q[a]) + k <= params.maxDE /\ SubmitDEs(a, k)
     \/ \E a \in Addr : q[a] # <<>> /\ ResetDE(a)
-    \/ \E S \in SUBSET Member : RequestOK(S)
+    \/ \E S \in SUBSET Member :
+          IF tr = "exec" THEN \E pr \in Prios : RequestOK(S, pr) ELSE RequestOK(S, CHOOSE pr \in Prios : TRUE)
     \/ \E id \in Ids : \E m \in att[id].mem \ att[id].signed : SigAcceptable(m, id, TRUE) /\ SubmitSig(m, id, TRUE)
-    \/ \E a \in Member : ~ownAct[a] /\ cool[a] = 0 /\ Activate(a)
-    \/ \E n \in PreSet : EndBlock(n)
+    \/ \E a \in Member, g \in Grp : (g = 1 \/ tr = "exec") /\ ~ownAct[g][a] /\ cool[g][a] = 0 /\ Activate(a, g)
+    \/ TransOn /\ tr = "none" /\ Transition
+    \/ \E n \in PreSet, k \in PostSet : EndBlock(n, k)
     \/ \E p \in PeriodSet : SetPeriod(p)
     \/ Rejected
 
 \* liveness cfg: stop creating work at MaxH instead of constraining (a constraint can hide non-progress cycles)
 NextBounded ==
     \/ h < MaxH /\ NextMC
-    \/ h >= MaxH /\ h < MaxH + 8 /\ EndBlock(0)
+    \/ h >= MaxH /\ h < MaxH + 8 /\ EndBlock(0, 0)
     \/ h >= MaxH + 8 /\ UNCHANGED vars
-SpecBounded == Init /\ [][NextBounded]_vars /\ WF_vars(EndBlock(0))
+SpecBounded == Init /\ [][NextBounded]_vars /\ WF_vars(EndBlock(0, 0))
 \* beyond MaxH + maxAtt*period blocks nothing can be WAITING any more (checked as part of liveness cfg)
 Drained == h >= MaxH + 8 => \A id \in Ids : sig[id].status # "WAITING"
 =============================================================================
